@@ -18,7 +18,12 @@
        pipeline:unexpected-pass / unexpected-predicate the recorded run leaves the transcribed program
        pipeline:guard-disagrees                        a predicate's recorded value is not the one its abstract reading gives
        pipeline:effect-outside-contract                the record after a pass is not allowed by the pass's contract
-       pipeline:ended-early                            the run stopped before the program did                        *)
+       pipeline:ended-early                            the run stopped before the program did
+       pipeline:mapping-bookkeeping                    PassData.placement / initial_mapping / final_mapping (the state C01 talks
+                                                       about) moved in a way the pass that ran is not meant to move them:
+                                                       all three are always injective and in range; only placement / layout /
+                                                       routing / permutation-aware passes may touch them; ApplyPlacement
+                                                       composes both mappings with the placement and resets the placement  *)
 EXTENDS PipelineDefs
 
 Cases == JsonDeserialize(IOEnv.TRACE_FILE)
@@ -51,11 +56,33 @@ Abs(s) ==
    \* (RestoreMeasurements leaves its key in the PassData: what counts is whether the placeholders are back)
    meas |-> IF s.meas_in THEN "in" ELSE IF s.meas_stored THEN "stored" ELSE "none"]
 
+\* ------------------------------------------------------------------ mapping bookkeeping (summaries s -> t around one pass)
+Inj(m) == \A i, j \in 1..Len(m) : i # j => m[i] # m[j]
+Within(m, n) == \A i \in 1..Len(m) : m[i] \in 0..n - 1
+MapInv(t) == /\ Inj(t.pi) /\ Inj(t.pf) /\ Inj(t.placement)
+             /\ Len(t.pi) = Len(t.pf) /\ Within(t.pi, t.width) /\ Within(t.pf, t.width)
+             /\ Len(t.placement) = t.width /\ Within(t.placement, t.mwidth)
+Through(m, pl) == [i \in 1..Len(m) |-> pl[m[i] + 1]]
+MayPermute == {"GeneralizedSabreLayoutPass", "GeneralizedSabreRoutingPass", "PAMLayoutPass", "PAMRoutingPass",
+               "PermutationAwareSynthesisPass", "SubtopologySelectionPass", "GreedyPlacementPass"}
+MapStep(name, s, t) ==
+  /\ MapInv(t)
+  /\ CASE name = "ApplyPlacement" ->
+             /\ t.width = t.mwidth
+             /\ t.pi = Through(s.pi, s.placement) /\ t.pf = Through(s.pf, s.placement)
+             /\ t.placement = [i \in 1..t.mwidth |-> i - 1]
+        [] name = "GreedyPlacementPass" -> t.pi = s.pi /\ t.pf = s.pf
+        [] name = "GeneralizedSabreRoutingPass" -> t.pi = s.pi /\ t.placement = s.placement
+        [] name \in MayPermute -> TRUE
+        \* (SetModelPass / SetTargetPass re-seat the placement when the width of the model / target asks for it)
+        [] name \in {"SetModelPass", "SetTargetPass"} -> t.pi = s.pi /\ t.pf = s.pf
+        [] OTHER -> t.pi = s.pi /\ t.pf = s.pf /\ t.placement = s.placement
+
 TheProg == (IF C.seeded THEN <<P("SetRandomSeedPass")>> ELSE <<>>) \o Prog(C.kind, C.level, C.n)
 
 \* Walk(i, todo, a): first disagreement from event i on, as <<event index, clause>>; <<0, "ok">> if none
-RECURSIVE Walk(_, _, _)
-Walk(i, todo, a) ==
+RECURSIVE Walk(_, _, _, _)
+Walk(i, todo, a, ps) ==
   IF i > Len(C.ev) THEN
        \* what is left of the program must be skippable without running a pass (it cannot be: every If was recorded)
        IF todo = <<>> THEN <<0, "ok">> ELSE <<i, "pipeline:ended-early">>
@@ -67,23 +94,26 @@ Walk(i, todo, a) ==
         IF h.t \notin {"if", "while"} \/ h.pred # e.name THEN <<i, "pipeline:unexpected-predicate">>
         ELSE IF e.val \notin PredVal(h.pred, a, GS) THEN <<i, "pipeline:guard-disagrees">>
         ELSE IF b # a THEN <<i, "pipeline:effect-outside-contract">>
-        ELSE IF h.t = "if" THEN Walk(i + 1, (IF e.val THEN h.then ELSE h.else) \o Tail(todo), a)
-        ELSE Walk(i + 1, IF e.val THEN h.body \o todo ELSE Tail(todo), a)
+        ELSE IF h.t = "if" THEN Walk(i + 1, (IF e.val THEN h.then ELSE h.else) \o Tail(todo), a, ps)
+        ELSE Walk(i + 1, IF e.val THEN h.body \o todo ELSE Tail(todo), a, ps)
       ELSE
         IF h.t = "pass" THEN
           IF h.name # e.name THEN <<i, "pipeline:unexpected-pass">>
           ELSE IF b \notin Eff(h.name, a, GS) THEN <<i, "pipeline:effect-outside-contract">>
-          ELSE Walk(i + 1, Tail(todo), b)
+          ELSE IF ~MapStep(h.name, ps, e.rec) THEN <<i, "pipeline:mapping-bookkeeping">>
+          ELSE Walk(i + 1, Tail(todo), b, e.rec)
         ELSE IF h.t = "foreach" THEN
           IF e.name # "ForEachBlockPass" THEN <<i, "pipeline:unexpected-pass">>
           ELSE IF b \notin EffForEach(h, a, GS) THEN <<i, "pipeline:effect-outside-contract">>
-          ELSE Walk(i + 1, Tail(todo), b)
+          ELSE IF ~MapStep("ForEachBlockPass", ps, e.rec) THEN <<i, "pipeline:mapping-bookkeeping">>
+          ELSE Walk(i + 1, Tail(todo), b, e.rec)
         ELSE <<i, "pipeline:unexpected-pass">>
 
 Verdict ==
   IF C.what = "program"
   THEN (IF C.prog = Prog(C.kind, C.level, C.n) THEN <<0, "ok">> ELSE <<0, "pipeline:as-built-differs">>)
-  ELSE Walk(1, TheProg, Abs(C.start))
+  ELSE IF ~MapInv(C.start) THEN <<0, "pipeline:mapping-bookkeeping">>
+  ELSE Walk(1, TheProg, Abs(C.start), C.start)
 
 Init == tid \in 1..Len(Cases)
 Next == UNCHANGED tid
